@@ -28,14 +28,14 @@ def source(mm, style, modname, nsuri):
         for c in list(pending):
             if all(s in done for s in c.get('supers', [])):
                 bases = ', '.join(c['supers'])
+                if c.get('abstract'):
+                    L.append('@abstract')          # outermost: abstract() needs the eClass the metaclass creates
                 if style == 'meta':
                     head = f"class {c['name']}({bases or 'EObject'}" + (", metaclass=MetaEClass):" if not bases else "):")
                 else:
                     if not bases:
                         L.append('@EMetaclass')
                     head = f"class {c['name']}({bases or 'object'}):"
-                if c.get('abstract'):
-                    L.append('@abstract')
                 L.append(head)
                 body = []
                 for fd in c['features']:
